@@ -255,3 +255,12 @@ pub fn build_sst(path: &std::path::Path, entries: &[Entry], o: &BuildOpts) -> Re
     }
     b.seal()
 }
+
+/// The caller's tombstone flag before a `load`: false or true as a function of the arguments (so a
+/// replay sees the same flag), so that a `load` that returns without writing its out-parameter (a
+/// "tombstone" that does not exist, or a missed one) is seen.  C10: "reports its tombstone" is
+/// part of what a lookup returns.
+pub fn stale_flag_for(key: &[u8], salt: u64) -> bool {
+    let h = key.iter().fold(salt ^ key.len() as u64, |a, b| a.wrapping_mul(1099511628211).wrapping_add(*b as u64));
+    (h ^ (h >> 17)) & 1 == 1
+}
